@@ -17,7 +17,11 @@ import core
 
 RULE = ("exhaustive box of FullGrid specifications: bare numbers n_b, n_o in 1..5 x n_t in 1..3 x both position modes "
         "(thorough: n_b, n_o in 1..8, n_t in 1..4), crossed with every algorithm reachable by name (cube4D/randomQ/fulldiv/zero x ico/cube3D/randomS/zero; "
-        "quick: a reduced cross), all five getters; plus seed-dependent specs (random strictly ascending radii, linspace form, "
+        "quick: a reduced cross), all five getters; the radial text of every case is drawn from all spellings the radial parser accepts "
+        "for the same radii (bare int/float/exponent number with spaces/parentheses/sign, list, tuple, bare comma list, trailing comma, "
+        "nested, unsorted, linspace incl. n=1 and descending, range incl. default and negative step; arbitrary, equally spaced and "
+        "integer nm values), every spelling family x both modes x n_t in 1..3 exhaustively on small grids, at random elsewhere, the "
+        "model being fed the denoted radii, never the text; plus seed-dependent specs (random strictly ascending radii, "
         "sizes up to 12), cell-model method calls for every (dim, algorithm, N, method, only_upper), radial helper calls "
         "(incl. single, repeated, zero and empty radii) and name resolutions (incl. rejected names). A full-grid case is "
         "non-trivial when the constructor succeeded and all five getters were evaluated; distinct by (b, o, t, mode)")
@@ -68,6 +72,136 @@ def radii_of(t: str):
         arr = np.array(literal_eval(t), dtype=float)
     arr = np.sort(arr, axis=None) * 10
     return [float(x) for x in arr]
+
+
+# ----------------------------------------------------------------------------------------------
+# spellings of a radial grid: every way the radial parser accepts the SAME radii (values in nm, ascending)
+# ----------------------------------------------------------------------------------------------
+def _lit(x: float) -> str:
+    """float literal that reads back as exactly x"""
+    return repr(float(x))
+
+
+def _int_lit(x: float):
+    return str(int(x)) if float(x).is_integer() else None
+
+
+def _exp_lit(x: float) -> str:
+    """exponent spelling, e.g. 0.3 -> '3e-1' (reads back as exactly x)"""
+    from decimal import Decimal
+    d = Decimal(repr(float(x))).normalize()
+    sign, digits, exp = d.as_tuple()
+    txt = "".join(map(str, digits))
+    out = f"{'-' if sign else ''}{txt}e{exp}"
+    assert float(out) == float(x), (out, x)
+    return out
+
+
+def _mixed_lit(x: float) -> str:
+    return _int_lit(x) or _lit(x)
+
+
+def _uniform_step(v):
+    """common step of an equally spaced grid (within rounding), else None"""
+    if len(v) < 2:
+        return None
+    st = v[1] - v[0]
+    if st <= 0 or any(abs(v[0] + i * st - x) > 1e-12 * max(1.0, abs(x)) for i, x in enumerate(v)):
+        return None
+    return st
+
+
+def _num(x: float) -> str:
+    """argument of linspace/range: short, integer literal where possible"""
+    x = round(float(x), 12)
+    return _int_lit(x) or _lit(x)
+
+
+def _all_int(v):
+    return all(float(x).is_integer() for x in v)
+
+
+def _rot(v):
+    """a fixed non-sorted order (descending for two, rotated-and-swapped for more)"""
+    return list(v[::-1]) if len(v) < 3 else list(v[1:][::-1]) + [v[0]]
+
+
+# family name -> function(values in nm, ascending) -> spelling, or None when the family cannot express these values.
+# One-radius families (the bare-number ones give literal_eval a scalar, not a sequence):
+FAMILIES_1 = {
+    "bare_float": lambda v: _lit(v[0]),
+    "bare_int": lambda v: _int_lit(v[0]),
+    "bare_spaces": lambda v: f"  {_mixed_lit(v[0])} ",
+    "bare_tab_newline": lambda v: f"\t{_lit(v[0])}\n",
+    "bare_paren": lambda v: f"({_lit(v[0])})",
+    "bare_plus": lambda v: f"+{_lit(v[0])}",
+    "bare_exp": lambda v: _exp_lit(v[0]),
+    "list": lambda v: f"[{_lit(v[0])}]",
+    "list_int": lambda v: (f"[{_int_lit(v[0])}]" if _int_lit(v[0]) else None),
+    "list_trailing_comma": lambda v: f"[{_lit(v[0])},]",
+    "list_exp": lambda v: f"[{_exp_lit(v[0])}]",
+    "tuple": lambda v: f"({_lit(v[0])},)",
+    "comma": lambda v: f"{_mixed_lit(v[0])},",
+    "nested": lambda v: f"[[{_lit(v[0])}]]",
+    "linspace_n1": lambda v: f"linspace({_num(v[0])}, {_num(v[0] + 1)}, 1)",
+    "range_default_step": lambda v: f"range({_num(v[0])}, {_num(v[0] + 0.5)})",
+    "range_step": lambda v: f"range({_num(v[0])}, {_num(v[0] + 0.25)}, 0.5)",
+    "range_negative_step": lambda v: f"range({_num(v[0])}, {_num(v[0] - 0.25)}, -0.5)",
+}
+# Families for two or more radii:
+FAMILIES_N = {
+    "list": lambda v: "[" + ", ".join(_lit(x) for x in v) + "]",
+    "list_int": lambda v: ("[" + ", ".join(_int_lit(x) for x in v) + "]" if _all_int(v) else None),
+    "list_mixed_int_float": lambda v: ("[" + ", ".join(_mixed_lit(x) for x in v) + "]"
+                                       if any(_int_lit(x) for x in v) and not _all_int(v) else None),
+    "list_spaces_trailing_comma": lambda v: "[ " + " ,".join(_lit(x) for x in v) + " , ]",
+    "list_unsorted": lambda v: "[" + ", ".join(_lit(x) for x in _rot(v)) + "]",
+    "list_exp": lambda v: "[" + ", ".join(_exp_lit(x) for x in v) + "]",
+    "comma": lambda v: ", ".join(_mixed_lit(x) for x in v),
+    "comma_trailing_unsorted": lambda v: ",".join(_lit(x) for x in _rot(v)) + ",",
+    "tuple": lambda v: "(" + ", ".join(_lit(x) for x in v) + ")",
+    "nested_row": lambda v: "[[" + ", ".join(_lit(x) for x in v) + "]]",
+    "nested_column": lambda v: "[" + ", ".join(f"[{_lit(x)}]" for x in v) + "]",
+    "linspace": lambda v: (f"linspace({_num(v[0])}, {_num(v[-1])}, {len(v)})" if _uniform_step(v) else None),
+    "linspace_descending": lambda v: (f"linspace({_num(v[-1])}, {_num(v[0])}, {len(v)})" if _uniform_step(v) else None),
+    "range": lambda v: (f"range({_num(v[0])}, {_num(v[-1] + _uniform_step(v) / 2)}, {_num(_uniform_step(v))})"
+                        if _uniform_step(v) else None),
+    "range_default_step": lambda v: (f"range({_num(v[0])}, {_num(v[-1] + 0.5)})"
+                                     if _uniform_step(v) and abs(_uniform_step(v) - 1) < 1e-12 else None),
+    "range_negative_step": lambda v: (f"range({_num(v[-1])}, {_num(v[0] - _uniform_step(v) / 2)}, {_num(-_uniform_step(v))})"
+                                      if _uniform_step(v) else None),
+}
+# radii (nm) every family is tried on: arbitrary, equally spaced non-dyadic, integer (the parser multiplies by the int 10),
+# and integers mixed with halves
+PRESETS = {"general": (0.1, 0.2, 0.35, 0.5, 0.8, 1.3), "uniform": (0.3, 0.6, 0.9, 1.2, 1.5, 1.8), "integer": (1, 2, 3, 4, 5, 6),
+           "mixed": (0.5, 1, 1.5, 2, 2.5, 3)}
+
+
+def families(nt):
+    return FAMILIES_1 if nt == 1 else FAMILIES_N
+
+
+def spell(fam: str, nm):
+    """spelling of the ascending nm values `nm` in family `fam` (None if not expressible)"""
+    v = [float(x) for x in nm]
+    return families(len(v))[fam](v)
+
+
+def draw_spelling(rng, nm):
+    """a random accepted spelling of the radii `nm`"""
+    v = sorted(float(x) for x in nm)
+    opts = [(f, fn(v)) for f, fn in families(len(v)).items()]
+    opts = [(f, t) for f, t in opts if t is not None]
+    return rng.choice(opts)
+
+
+def intended_radii(case):
+    """radii in Angstrom the specification denotes, independently of how it is spelled: the nm values, ascending, x10
+    (cases without recorded values, e.g. stored witnesses: read from the list literal / linspace text)"""
+    if case.get("radii_nm") is not None:
+        arr = np.sort(np.array(case["radii_nm"], dtype=float), axis=None) * 10
+        return [float(x) for x in arr]
+    return radii_of(case["t"])
 
 
 def _std_o_name(name: str) -> str:
@@ -249,27 +383,63 @@ def _name(alg, n):
     return str(n) if alg == "" else ("zero" if alg == "zero" else f"{alg}_{n}")
 
 
+def _swap(r, cart):
+    """(t, nm, fam), cart -> emit's argument order (t, cart, nm, fam)"""
+    t, nm, fam = r
+    return t, cart, nm, fam
+
+
 def _fullgrid_cases(ctx):
     quick = ctx.quick
     nmax = 5 if quick else 8
     tmax = 3 if quick else 4
     seen = set()
 
-    def emit(b, o, t, cart):
+    rng = ctx.rng
+
+    def emit(b, o, t, cart, nm=None, fam=None):
         c = {"kind": "fullgrid", "b": b, "o": o, "t": t, "cart": cart}
         k = _key(c)
         if k not in seen:
             seen.add(k)
+            if nm is not None:
+                c["radii_nm"] = [float(x) for x in nm]     # what the text denotes; the model is fed from this, not from t
+                c["family"] = fam
             # order in which the five getters are requested: quick alternates, thorough does both (fresh objects)
             c["order"] = "both" if not quick else ("rev" if len(seen) % 2 else "fwd")
             return c
         return None
 
+    def rad(nt):
+        """(text, nm values, family): n_t radii from a random preset in a random accepted spelling"""
+        nm = PRESETS[rng.choice(sorted(PRESETS))][:nt]
+        fam, t = draw_spelling(rng, nm)
+        return t, nm, fam
+
     out = []
+    # 0. spellings: every family x every preset that it can express x n_t in 1..3 x both modes, for a few small grids
+    pairs = [("2", "4"), ("3", "1")] if quick else [("2", "4"), ("3", "1"), ("1", "3"), ("4", "5"),
+                                                    ("cube4D_5", "randomS_6"), ("zero", "cube3D_2")]
+    fam_cov = {}
+    for (b, o), cart, nt in itertools.product(pairs, (False, True), (1, 2, 3)):
+        for fam in families(nt):
+            for pname in sorted(PRESETS):
+                nm = PRESETS[pname][:nt]
+                t = spell(fam, nm)
+                if t is None:
+                    continue
+                out.append(emit(b, o, t, cart, nm, fam))
+                fam_cov.setdefault(fam, set()).add((1 if nt == 1 else 2, cart))
+    missing = [(f, nt) for nt in (1, 2) for f in families(nt) for cart in (False, True) if (nt, cart) not in fam_cov.get(f, ())]
+    if missing:
+        raise core.HarnessError(f"spelling families not covered: {missing}")
+    ctx.extra_cov["radial_spelling_families"] = {"n_t=1": sorted(FAMILIES_1), "n_t>=2": sorted(FAMILIES_N),
+                                                 "covered": "every family x both modes x every preset it can express, "
+                                                            f"grids {pairs}; all other cases draw family and preset at random"}
     # 1. the box of the property: bare numbers, exhaustively
     for cart in (False, True):
         for nb, no, nt in itertools.product(range(1, nmax + 1), range(1, nmax + 1), range(1, tmax + 1)):
-            out.append(emit(str(nb), str(no), T_BASE[nt], cart))
+            out.append(emit(str(nb), str(no), *_swap(rad(nt), cart)))
     # 2. every algorithm reachable by name
     b_forms = ("", "cube4D", "randomQ")
     o_forms = ("", "ico", "cube3D", "randomS")
@@ -285,22 +455,22 @@ def _fullgrid_cases(ctx):
                 if quick and (nb + no + nt + (ba != "") + 2 * (oa != "")) % 3 != 0:
                     # reduced cross in the quick tier: a third of the named box, every size still occurs with every algorithm
                     continue
-                out.append(emit(_name(ba, nb), _name(oa, no), T_BASE[nt], cart))
+                out.append(emit(_name(ba, nb), _name(oa, no), *_swap(rad(nt), cart)))
     # 3. zero names and fulldiv (documented ValueError unless 8, 40, ...)
     for cart in (False, True):
         for nt in (1, 2, 3):
             for no in (1, 2, 3, 4, 5):
-                out.append(emit("zero", str(no), T_BASE[nt], cart))
-                out.append(emit("zero4D_1", f"ico_{no}", T_BASE[nt], cart))
-                out.append(emit("cube4D_1", f"cube3D_{no}", T_BASE[nt], cart))
+                out.append(emit("zero", str(no), *_swap(rad(nt), cart)))
+                out.append(emit("zero4D_1", f"ico_{no}", *_swap(rad(nt), cart)))
+                out.append(emit("cube4D_1", f"cube3D_{no}", *_swap(rad(nt), cart)))
             for nb in (1, 2, 3, 4, 5):
-                out.append(emit(str(nb), "zero", T_BASE[nt], cart))
-                out.append(emit(f"randomQ_{nb}", "zero3D", T_BASE[nt], cart))
-                out.append(emit(f"cube4D_{nb}", "ico_1", T_BASE[nt], cart))
+                out.append(emit(str(nb), "zero", *_swap(rad(nt), cart)))
+                out.append(emit(f"randomQ_{nb}", "zero3D", *_swap(rad(nt), cart)))
+                out.append(emit(f"cube4D_{nb}", "ico_1", *_swap(rad(nt), cart)))
         for nb in (1, 2, 3, 4, 5, 7, 8, 9):
             for no in (1, 2, 3, 5):
-                out.append(emit(f"fulldiv_{nb}", str(no), T_BASE[2], cart))
-                out.append(emit(f"fulldiv_{nb}", str(no), T_BASE[1], cart))
+                out.append(emit(f"fulldiv_{nb}", str(no), *_swap(rad(2), cart)))
+                out.append(emit(f"fulldiv_{nb}", str(no), *_swap(rad(1), cart)))
     if not quick:
         out.append(emit("fulldiv_40", "4", T_BASE[2], False))
         out.append(emit("fulldiv_40", "ico_3", T_BASE[1], True))
@@ -316,25 +486,24 @@ def _fullgrid_cases(ctx):
             out.append(emit("2", "4", t, cart))
             out.append(emit("5", "5", t, cart))
     # 6. seed-dependent: random strictly ascending radii, unsorted input, linspace, larger sizes
-    rng = ctx.rng
     for _ in range(40 if quick else 400):
         nt = rng.choice((1, 1, 2, 2, 3, 4, 5, 6))
-        rs = sorted({round(rng.uniform(0.05, 3.0), rng.choice((1, 2, 3))) for _k in range(nt)})
-        rs = [r for r in rs if r > 0]
+        rs = sorted({round(rng.uniform(0.05, 3.0), rng.choice((0, 1, 2, 3))) for _k in range(nt)})
+        rs = [float(r) for r in rs if r > 0]
         if not rs:
             continue
-        if rng.random() < 0.3:
-            rng.shuffle(rs)
-        t = "[" + ", ".join(repr(r) for r in rs) + "]"
-        if rng.random() < 0.15:
+        if rng.random() < 0.25:
+            # an equally spaced grid, so that the linspace / range families apply
             k = rng.randint(1, 5)
-            t = f"linspace({rs[0]}, {round(rs[0] + rng.uniform(0.1, 2), 2)}, {k})"
+            st = round(rng.uniform(0.1, 1.0), 2)
+            rs = [round(rs[0] + i * st, 6) for i in range(k)]
+        fam, t = draw_spelling(rng, rs)
         hi = 8 if quick else 12
         nb = rng.choice((1, 2, 3, 4, 5, rng.randint(1, hi)))
         no = rng.choice((1, 2, 3, 4, 5, rng.randint(1, hi)))
         ba = rng.choice(("", "", "cube4D", "randomQ"))
         oa = rng.choice(("", "", "ico", "cube3D", "randomS"))
-        out.append(emit(_name(ba, nb), _name(oa, no), t, rng.random() < 0.5))
+        out.append(emit(_name(ba, nb), _name(oa, no), t, rng.random() < 0.5, rs, fam))
     return [c for c in out if c is not None]
 
 
@@ -419,7 +588,7 @@ def model_ops(case, out):
         if sb is None or so is None:
             return []
         try:
-            radii = [core.rat(x) for x in radii_of(case["t"])]
+            radii = [core.rat(x) for x in intended_radii(case)]
         except Exception:
             return []
         base = {"op": "fullgrid", "b": sb, "o": so, "radii": radii, "cartesian": case["cart"]}
@@ -496,9 +665,11 @@ def compare(ctx, case, out, mouts):
                         return
         # radii seen by the implementation = radii the harness computed for the model
         if out["ctor"] == "ok" and "radii" in out:
-            mine = [core.rat(x) for x in radii_of(case["t"])]
-            if mine != out["radii"]:
-                ctx.corr("fullgrid/radii", case, out["radii"], mine)
+            mine = intended_radii(case)
+            theirs = [float(core.unrat(x)) for x in out["radii"]]
+            # linspace / range spellings are evaluated by numpy: equal up to rounding, never in number
+            if len(mine) != len(theirs) or any(not core.close(a, b, rel=1e-12, abs_=1e-12) for a, b in zip(mine, theirs)):
+                ctx.corr("fullgrid/radii", case, out["radii"], [core.rat(x) for x in mine])
         return
     m = mouts[0]
     if k == "cell":
@@ -562,7 +733,7 @@ def oracle(ctx, case, out):
         nb, no = requested_n(case["b"]), requested_n(case["o"])
         sb, so = scan_name(case["b"]), scan_name(case["o"])
         try:
-            radii = radii_of(case["t"])
+            radii = intended_radii(case)
         except Exception:
             radii = None
         # names the parser must reject (no valid request / algorithm of the wrong role)
@@ -579,6 +750,8 @@ def oracle(ctx, case, out):
         nt = len(radii)
         n = nt * no * nb
         ctx.branch(f"mode:{'cartesian' if case['cart'] else 'spherical'}")
+        if case.get("family"):
+            ctx.branch(f"spelling(n_t{'=1' if nt == 1 else '>=2'}):{case['family']}")
         ctx.branch(f"n_t={nt}")
         ctx.branch(f"n_b={'>=4' if nb >= 4 else nb}")
         ctx.branch(f"n_o={'>=4' if no >= 4 else no}")
@@ -591,13 +764,16 @@ def oracle(ctx, case, out):
                          "ok | ValueError raised by molgri | QhullError iff Cartesian and n_o<3", e)
             return
         if "observe" in out:
+            # the size getters themselves raised; the five getters are still judged against the requested sizes below
             e = out["observe"]
-            ctx.fail(f"C19:observe:{e['err']}", f"size/cell-model getters raised {e['err']}", case, None, e)
-            return
-        if (out["n_b"], out["n_o"], out["n_t"]) != (nb, no, nt):
-            ctx.fail("C19:sizes", "grid sizes differ from the requested ones", case, [nb, no, nt], [out["n_b"], out["n_o"], out["n_t"]])
-            return
-        ctx.branch(f"cells:{out['b_cell']}/{out['o_cell']}")
+            ctx.fail(f"C19:observe:{e['err']}", f"size/cell-model getters (get_N, get_N_trans, ...) raised {e['err']} "
+                     f"({e.get('where')}: {e.get('msg')})", case, [nb, no, nt], e)
+        else:
+            if (out["n_b"], out["n_o"], out["n_t"]) != (nb, no, nt):
+                ctx.fail("C19:sizes", "grid sizes differ from the requested ones", case, [nb, no, nt],
+                         [out["n_b"], out["n_o"], out["n_t"]])
+                return
+            ctx.branch(f"cells:{out['b_cell']}/{out['o_cell']}")
         want = {"get_full_grid_as_array": [n, 7], "get_total_volumes": [n]}
         ctx.branch(f"order:{case.get('order', 'fwd')}")
         for tag in ("getters", "getters_rev"):
